@@ -136,6 +136,22 @@ def components (g : VGraph) : Res :=
   | some .panic => .panic
   | none => .ret (run g).comps
 
+/-- What a caller sees of a state: `&self.components` unless the call panicked. -/
+def resOf (s : St) : Res :=
+  match s.fault with
+  | some .fuel => .fuel
+  | some .panic => .panic
+  | none => .ret s.comps
+
+/-- State of ONE `Tarjan` value after `k` calls of `components()` (`&mut self`: the fields are
+carried over; a later call runs the same loop, which skips every vertex that has an index). -/
+def callN (g : VGraph) : Nat → St
+  | 0 => {}
+  | k+1 => g.verts.foldl (top g) (callN g k)
+
+/-- What the `k`-th call (`k ≥ 1`) of `components()` on the same value returns. -/
+def componentsAt (g : VGraph) (k : Nat) : Res := resOf (callN g k)
+
 /-- The doc example of tarjan.rs. -/
 def exampleGraph : VGraph :=
   ⟨[0,1,2,3,4,5,6,7], fun u => match u with
@@ -146,6 +162,10 @@ example : components exampleGraph = .ret [[5,6],[2,3,7],[0,1,4]] := by decide
 
 /-- A non-contiguous digraph: ids 3, 7, 1000. -/
 example : components ⟨[3,7,1000], fun u => if u = 3 then [1000] else if u = 1000 then [3] else []⟩
+    = .ret [[3,1000],[7]] := by decide
+
+/-- … and a second call on the same value returns the same list. -/
+example : componentsAt ⟨[3,7,1000], fun u => if u = 3 then [1000] else if u = 1000 then [3] else []⟩ 2
     = .ret [[3,1000],[7]] := by decide
 
 end GraafVerif.Tarjan
